@@ -21,7 +21,8 @@ LEVEL_TEXT = ('All nesting shapes of depth <= 3 (quick) / 4 (thorough) over {INC
               'with -x levels, -n and -E targets; undefined-symbol faults (reported in the last pass) separately; and every ordered EXPECT list over '
               '3 message numbers x every provoked subset.  The multiset of reported positions must equal the planted one.'
               ' Shapes over INCLUDE/macro to depth 3 are repeated with the faulty statement on the unterminated last line of its file and with long include file names.'
-              ' Include and macro chains of 10..150 levels and the console listing (-l) combined with a separate error channel are enumerated.')
+              ' Include and macro chains of 10..150 levels and the console listing (-l) combined with a separate error channel are enumerated.'
+              ' Main and include file names of 5..36 characters are crossed with line numbers of one, two and three digits in both formats.')
 LEVEL_NOTE = ('Trusted: the position predictor (format facts from the manual and calibrated spacing-tolerant parser: only (file,line) and '
               '(construct, body line) pairs are compared, not iteration counters or IRP argument text).')
 RULE = 'nesting shape x fault x position x options; non-trivial = all'
